@@ -66,6 +66,19 @@ SPECS = {
                      "rejected call followed by state comparison (PartialEq on every part of the member state; secret trees up to "
                      "observational equivalence of every (leaf, key type, generation<=6) key) and the follow-up oracle (genuine message "
                      "accepted, then the member sends and a peer accepts); distinct = distinct (kind, class, error kind) cells"),
+    "C06": dict(shards=(8, 32), level="exploration",
+                floors={"quick": {"lockstep_steps": 1500, "crash_points": 100, "provider_equivalence_checked": 150,
+                                  "reload_at:commit_created_pending": 25, "reload_at:received_commit": 80,
+                                  "reload_at:received_proposal": 80, "reload_at:received_application_message": 60,
+                                  "reload_at:own_proposal": 20, "reload_at:commit_applied": 20, "reload_at:joined": 5,
+                                  "reload_with_cached_proposals": 120}},
+                show=("histories", "reload_", "lockstep", "crash", "provider_eq", "backend"),
+                rule="seeded histories over both storage providers and retention 1,2,3,5; after every kind of step a member is written, "
+                     "loaded by a fresh client over the same store and compared (all state parts, pending commit, cached proposals, pending "
+                     "updates); the loaded object then stays in lockstep with a never-reloaded twin on all deterministic traffic; a crash "
+                     "monitor compares a later fresh load with the state at the last write; the Tee backend compares the in-memory and SQLite "
+                     "providers after every write; one evaluation = one reload / lockstep step / crash point / provider comparison; distinct "
+                     "= distinct (kind, position, pending?, cached proposals, result) cells"),
     "C11": dict(shards=(8, 32), level="exploration",
                 floors={"quick": {"winner_orders_resolved": 300, "stale_commit_refused": 2000, "stale_detached_refused": 150,
                                   "second_build_refused": 150, "read_with_pending_ok": 300, "agreement_checked": 1000,
